@@ -45,7 +45,9 @@ def _solver_for_copy(h):
     popE = h.clist([h.real('e0', inf=True), h.real('e1', inf=True)])
     fcalls = h.clist([h.int('fcalls')])
     mon = h.obj('mystic/monitors.py::Monitor', _x=h.clist([]), _y=h.clist([]), _id=h.clist([]), _info=h.clist([]), k=None, _npts=None, label='ChiSquare')
-    cost = h.tup(h.fn('WRAPPED', ret='real'), h.fn('RAW', ret='real'), None)
+    # the user's objective may be a stateful callable OBJECT (call counter, cache) and ExtraArgs may hold mutable data
+    raw = h.obj(None, calls=h.clist([0]), cache=h.dict())
+    cost = h.tup(h.fn('WRAPPED', ret='real'), raw, h.tup(h.clist([1.0, 2.0]), 3))
     s = h.obj(A, population=pop, popEnergy=popE, _fcalls=fcalls, _stepmon=mon, _cost=cost, _live=h.bool('live'), nDim=2, nPop=2,
               _bestEnergy=None, _bestSolution=None)
     return s, pop, popE, fcalls, mon, cost
@@ -65,6 +67,10 @@ def deepcopy(h):
     h.check('no-mutable-state-shared-with-the-original',
             'not same(r.population, pop) and not same(r.population[0], pop[0]) and not same(r.population[1], pop[1]) and '
             'not same(r.popEnergy, popE) and not same(r._fcalls, fcalls) and not same(r._stepmon, mon) and not same(r._stepmon._x, mon._x)', **e)
+    h.check('objective-object-is-a-copy-too', 'not same(r._cost[1], s._cost[1]) and not same(r._cost[1].calls, s._cost[1].calls) '
+            'and r._cost[1].calls[0] == 0', **e)
+    h.check('mutable-ExtraArgs-are-copies-too', 'not same(r._cost[2][0], s._cost[2][0]) and seq_eq(r._cost[2][0], s._cost[2][0]) '
+            'and r._cost[2][1] == 3', **e)
     h.check('copy-has-equal-contents',
             'seq_eq(r.population[0], m0) and seq_eq(r.population[1], m1) and r.popEnergy[0] == popE[0] and r.popEnergy[1] == popE[1] '
             'and r._fcalls[0] == fcalls[0] and r.nDim == 2 and r.nPop == 2', **e)
